@@ -47,8 +47,12 @@ class World:
         self.mod.handler = self.route
         self.n = 0
         self.known = 0
+        self.interrupt = None
 
     def route(self, ev):
+        if self.interrupt is not None:
+            exc, self.interrupt = self.interrupt, None
+            raise exc  # the user interrupts the program (Ctrl-C), it exits, a generator is closed: not an Exception
         if ev.get("file_closed"):
             self.closed_handle_events += 1
         if self.transport == "sgio" and self.by_ino:
@@ -248,6 +252,7 @@ def run(shard, ctx):
         if t == "sgio":
             run_relinked(ctx, w, SCSI, rng)
         run_attach_faults(ctx, w, SCSI, t)
+        run_interrupted_attaches(ctx, w, SCSI, t)
         return run_revisit(ctx, w, SCSI, t, rng)
     seqs = []
     if shard["kind"] == "pairs":
@@ -392,6 +397,47 @@ def run_attach_faults(ctx, w, SCSI, t):
                     ctx.fail("C16:attach_succeeds_without_inquiry_data", "attach returned normally after %d failed INQUIRYs and %d good ones: devicetype=%r set=%s, target is type %02Xh"
                              % (k, len(good), getattr(dev, "devicetype", None), name_of(dev.opcodes), devtype), wit)
                 w.close(dev)
+
+
+def run_interrupted_attaches(ctx, w, SCSI, t):
+    """an attach that is interrupted by something that is not an Exception (KeyboardInterrupt, SystemExit, GeneratorExit out of the
+    probe), then the same attach again on the same facade: it probes the device and selects its command set like any attach"""
+    for devtype in (0x00, 0x01, 0x05, 0x08, 0x0C):
+        for exc_t in (KeyboardInterrupt, SystemExit, GeneratorExit):
+            for first in (True, False):
+                dev0, _t0 = w.new_device(0x03, 0)
+                dev, tgt = w.new_device(devtype, 0)
+                wit = {"transport": t, "types": [devtype], "attach_interrupted_by": exc_t.__name__, "interrupted_attach_was_the_facades_first": first}
+                ctx.case((t, "interrupted", devtype, exc_t.__name__, first), True)
+                ctx.count("interrupted_attaches")
+                s = None
+                try:
+                    if first:
+                        w.interrupt = exc_t("interrupted")
+                        try:
+                            s = SCSI(dev)
+                        except exc_t:
+                            pass
+                        w.interrupt = None
+                        s = SCSI(dev0)
+                    else:
+                        s = SCSI(dev0)
+                        w.interrupt = exc_t("interrupted")
+                        try:
+                            s(dev)
+                        except exc_t:
+                            pass
+                        w.interrupt = None
+                    del tgt.log[:]
+                    s(dev)
+                except Exception as e:  # noqa: BLE001
+                    ctx.fail("C16:attach_raises.%s" % type(e).__name__, "attach after an interrupted attach raised %s" % e, wit, exc=e)
+                    continue
+                finally:
+                    w.interrupt = None
+                check_attached(ctx, dev, tgt, devtype, wit)
+                w.close(dev)
+                w.close(dev0)
 
 
 def run_revisit(ctx, w, SCSI, t, rng):
